@@ -4,7 +4,10 @@ package backend
 
 import (
 	"errors"
+	"strings"
 	"time"
+
+	proto "github.com/kubewharf/kubebrain-client/api/v2rpc"
 
 	"github.com/kubewharf/kubebrain/pkg/backend/common"
 	"github.com/kubewharf/kubebrain/pkg/backend/retry"
@@ -99,5 +102,119 @@ func VerifC09CompactRace() {
 		}
 		zzverif.Assert(w.b.asyncFifoRetry.Size() == 1, "the unresolved write is queued for repair")
 	}
+	zzverif.Cover("done")
+}
+
+// VerifC09RepairInterleave: a write whose commit was answered "outcome unknown" although it landed
+// is being repaired; one whole write by another client on the same key (update or delete naming
+// the newest revision — symbolic kind and value) lands between any two store operations of the
+// repair, or after it (the write runs inside the store's operation hook: no scheduler involved,
+// every position is one path and replays natively as it is). Afterwards the queue is empty, the
+// key reads as the reference model says, every revision handed out is resolved (a later write
+// becomes readable) and the watch stream has announced every successful write exactly once.
+func VerifC09RepairInterleave() {
+	retryInterval = 1000 * time.Millisecond
+	checkInterval = 50 * time.Millisecond
+	w := vNewWorld(1)
+	key := vNames[0]
+	w.create("c0", key)
+	zzverif.WaitIdle()
+	ch, err := w.b.Watch(vCtx(), "/r/", 0)
+	zzverif.Assert(err == nil, "watch accepted")
+	cur, _ := w.g.At(key, 0)
+	fired := false
+	w.s.FaultAt = func(kind string, n int) zzmodel.Fault {
+		if kind != "commit" || fired {
+			return zzmodel.FaultNone
+		}
+		fired = true
+		return zzmodel.FaultUnknownApplied
+	}
+	uval := zzverif.Bytes("unknown.val", 1)
+	_, err = w.b.Update(vCtx(), &proto.UpdateRequest{Kv: &proto.KeyValue{Key: key, Value: uval, Revision: cur.Rev}})
+	zzverif.Assert(err != nil, "unknown outcome is reported as an error")
+	w.s.FaultAt = nil
+	w.dealt++
+	unresolved := w.dealt
+	w.g.Append(key, unresolved, uval, false) // it landed
+	zzverif.WaitIdle()
+	zzverif.Assert(w.b.asyncFifoRetry.Size() == 1, "the unresolved write is queued for repair")
+	// the other client's write, placed at the at-th store operation of the repair
+	at := zzverif.Choose("at", zzverif.Param("points", 6))
+	del := zzverif.Choose("otherDeletes", 2) == 1
+	oval := zzverif.Bytes("other.val", 1)
+	n, done, inside := 0, false, false
+	var orev uint64
+	other := func() {
+		if del {
+			r, err := w.b.Delete(vCtx(), &proto.DeleteRequest{Key: key, Revision: unresolved})
+			zzverif.Assert(err == nil && r.Succeeded, "the other client's delete of the newest version succeeds")
+			orev = r.Header.Revision
+		} else {
+			r, err := w.b.Update(vCtx(), &proto.UpdateRequest{Kv: &proto.KeyValue{Key: key, Value: oval, Revision: unresolved}})
+			zzverif.Assert(err == nil && r.Succeeded, "the other client's update naming the newest revision succeeds")
+			orev = r.Header.Revision
+		}
+	}
+	w.s.Yield = func(p string) {
+		if inside || done || strings.HasSuffix(p, "-done") {
+			return
+		}
+		if n == at {
+			done, inside = true, true
+			other()
+			inside = false
+			zzverif.Cover("write-inside-the-repair")
+		}
+		n++
+	}
+	zzverif.AdvanceClock()
+	zzverif.FireTickers()
+	zzverif.WaitIdle()
+	w.s.Yield = nil
+	for i := 0; i < 3 && w.b.asyncFifoRetry.Size() > 0; i++ {
+		zzverif.AdvanceClock()
+		zzverif.FireTickers()
+		zzverif.WaitIdle()
+	}
+	zzverif.Assume(w.b.asyncFifoRetry.Size() == 0) // the executions in which the repair loop got to run
+	repaired := !done
+	if !done {
+		// the repair had fewer store operations: it has rewritten the unresolved write; the other write comes after it
+		newest, _ := w.b.Get(vCtx(), &proto.GetRequest{Key: key})
+		zzverif.Assert(newest.Kv != nil && zzverif.BytesEq(newest.Kv.Value, uval) && newest.Kv.Revision > unresolved, "the repair wrote the unresolved value again at a new revision")
+		w.g.Append(key, newest.Kv.Revision, uval, false)
+		unresolved = newest.Kv.Revision
+		other()
+		zzverif.Cover("write-after-the-repair")
+	}
+	_ = repaired
+	zzverif.WaitIdle()
+	// the key reads as the last successful write left it
+	g, err := w.b.Get(vCtx(), &proto.GetRequest{Key: key})
+	zzverif.Assert(err == nil, "get: no error")
+	if del {
+		zzverif.Assert(g.Kv == nil, "the key is deleted")
+	} else {
+		zzverif.Assert(g.Kv != nil && zzverif.BytesEq(g.Kv.Value, oval) && g.Kv.Revision == orev, "the key holds the other client's value")
+	}
+	// every revision handed out (also by the repair) is resolved: a later write becomes readable
+	cr, err := w.b.Create(vCtx(), &proto.CreateRequest{Key: vNames[3], Value: []byte("l")})
+	zzverif.Assert(err == nil && cr.Succeeded, "a later create succeeds")
+	zzverif.WaitIdle()
+	zzverif.Assert(w.b.GetCurrentRevision() >= cr.Header.Revision, "requests keep flowing: a later write becomes readable")
+	// the other client's write was announced exactly once
+	evs, closed := vDrainEvents(ch)
+	zzverif.Assert(!closed, "watch stays open")
+	seen := 0
+	last := uint64(0)
+	for _, e := range evs {
+		zzverif.Assert(e.Revision > last, "events in increasing revision order")
+		last = e.Revision
+		if e.Revision == orev {
+			seen++
+		}
+	}
+	zzverif.Assert(seen == 1, "the other client's write is announced exactly once")
 	zzverif.Cover("done")
 }
